@@ -301,5 +301,7 @@ m("C17", "C17-paren-restamps-function", "R17-lines:parser:taken-over-function-no
 
 m("C04", "C04-debug-getmetatable-protected", "R04-events:debugGetMetatable:reads-the-real-metatable", ("debuglib.go", "\tL.Push(L.metatable(L.CheckAny(1), true))\n", "\tL.Push(L.GetMetatable(L.CheckAny(1)))\n"))
 m("C15", "C15-huge-finite", "R15-mathmap:huge:is-positive-infinity", ("mathlib.go", "LNumber(math.Inf(1))", "LNumber(math.MaxFloat64)"))
+
+m("C16", "C16-yday-constant", "R16-time:osDate:field-components", ("oslib.go", "ret.RawSetString(\"yday\", LNumber(t.YearDay()))", "ret.RawSetString(\"yday\", LNumber(0))"))
 if __name__ == "__main__":
     main()
